@@ -6,7 +6,7 @@ import (
 	"strings"
 	"testing"
 
-	"golang.org/x/tools/go/ssa"
+	"verif/third_party/xtools/go/ssa"
 
 	"verif/internal/core"
 )
